@@ -126,6 +126,9 @@ func c07nRun(c *core.Ctx) {
 	}()
 	rd := bufio.NewReader(stdout)
 	l, err := rd.ReadString('\n')
+	if strings.HasPrefix(l, "HOSTKEY ") {
+		l, err = rd.ReadString('\n')
+	}
 	if err != nil || !strings.HasPrefix(l, "ADDR ") {
 		c.Res.HarnessErr = fmt.Sprintf("the server process did not report its address: %q %v", l, err)
 		return
